@@ -44,6 +44,12 @@ def _fn(node):
 
 _P = "svg_pathops"
 VARIANTS = [
+    Variant("early exit judged by the area of the raw running result (opposite windings cancel)",
+            [Edit(_P, "_do_pathop", "        sk_path2 = skia_path(svg_cmds, fill_rule)\n", "        if op != pathops.PathOp.UNION and not sk_path.area > 0:\n            return svg_commands(pathops.Path())\n        sk_path2 = skia_path(svg_cmds, fill_rule)\n")],
+            [("R-GUARD.do_pathop", "svg_pathops")]),
+    Variant("silent: early exit once a fix_winding result has area 0",
+            [Edit(_P, "_do_pathop", "        sk_path = pathops.op(sk_path, sk_path2, op, fix_winding=True)\n", "        sk_path = pathops.op(sk_path, sk_path2, op, fix_winding=True)\n        if op != pathops.PathOp.UNION and not sk_path.area > 0:\n            return svg_commands(pathops.Path())\n")],
+            silent=True),
     Variant("fill-type table swapped", [Edit(_P, None, '"nonzero": pathops.FillType.WINDING,\n    "evenodd": pathops.FillType.EVEN_ODD,', '"nonzero": pathops.FillType.EVEN_ODD,\n    "evenodd": pathops.FillType.WINDING,')],
             [("R-", "svg_pathops")]),
     Variant("rules shifted by one", [Edit(_P, "_do_pathop", "zip(svg_cmd_seqs[1:], fill_rules[1:])", "zip(svg_cmd_seqs[1:], fill_rules)")], [("R-GUARD.do_pathop", "svg_pathops")]),
